@@ -89,6 +89,10 @@ mech("ts-flattened-variant-ignores-nullable",
  "TypeScript generators: a nullable field of a message that is a FLATTENED oneof variant is declared without `| null` in the flattened union member, while the Go codecs write null for it",
  [("C07","tstype/oneof_flatten/message/variants-with-codecs*",["null-not-allowed"],"role:/ovar(*")])
 
+mech("mock-map-value-of-imported-message-ignores-examples",
+ "generate_mock=true: a map whose value is a message declared in ANOTHER file/Go package is filled with the built-in defaults (\"example string\") although the value type declares field_examples (the same type used as a singular field does take them)",
+ [("C20","mock/imported-message-types/other-go-package",["value-outside-declared-examples"],"string")])
+
 mech("enum-value-not-applied",
  "enum_value custom JSON strings are only attached to the enum type's MarshalJSON, which protojson never calls: messages still carry proto enum names while OpenAPI and TypeScript publish the custom strings",
  [("C04","codec/enum_value/*",["canon-decode-error","canon-changed"],None),("C05","json/enum_value/*",J5,None),
